@@ -45,8 +45,8 @@ Proof. exact half_window_1d_iff. Qed.
 Print Assumptions C15_half_window_1d_iff.
 
 (* _check_half_window, 1-D and 2-D (pairs): whatever is accepted is a positive integer (pair) *)
-Theorem C15_half_window_accepts_only_valid : forall (td : bool) (v : value),
-  regular v = true -> run_guard (GHalfWindow false td) v = None -> must_reject DHw td v = false.
+Theorem C15_half_window_accepts_only_valid : forall (az td : bool) (v : value),
+  regular v = true -> run_guard (GHalfWindow az td) v = None -> must_reject (DHw az) td v = false.
 Proof. exact half_window_accepts_only_valid. Qed.
 Print Assumptions C15_half_window_accepts_only_valid.
 
@@ -100,7 +100,7 @@ Print Assumptions C15_no_other_exception.
 Theorem C15_routing_partial : forall t : list entry,
   routing_ok t = true ->
   forall e d, In e t -> expected e = Some d ->
-  forall v, regular v = true -> must_reject d (e_two_d e) v = true ->
+  forall v, regular v = true -> must_reject d (pair_of e) v = true ->
     is_vt (run_chain (before_use (e_chain e)) v) = true.
 Proof. exact routing_sound. Qed.
 Print Assumptions C15_routing_partial.
@@ -150,6 +150,24 @@ Print Assumptions C15_check_finite_forwarded.
 Theorem C15_finite_routing_checked : finite_routing_ok finite_routing = true.
 Proof. vm_compute. reflexivity. Qed.
 Print Assumptions C15_finite_routing_checked.
+
+(* HALF-WINDOW SITES.  The list of _check_half_window call sites generated from the source, WITH the
+   allow_zero / two_d flags each one passes, equals the pinned documented contract (positive vs
+   non-negative window; scalar vs two-item form such as snip's (left, right) max_half_window). *)
+Theorem C15_hw_sites_pinned : forall t : list hwsite, hw_sites_ok t = true -> t = hw_sites_expected.
+Proof. exact hw_sites_sound. Qed.
+Print Assumptions C15_hw_sites_pinned.
+
+Theorem C15_hw_sites_checked : hw_sites_ok hw_sites = true.
+Proof. vm_compute. reflexivity. Qed.
+Print Assumptions C15_hw_sites_checked.
+
+(* in a pair every entry must be valid: one zero entry is enough for must_reject (non-vacuity of the pair claim) *)
+Example C15_pair_one_zero_nonvacuous :
+  must_reject (DHw false) true (Lst [Int 10; Int 0]) = true /\ regular (Lst [Int 10; Int 0]) = true /\
+  run_guard (GHalfWindow false true) (Lst [Int 10; Int 0]) = Some VErr /\
+  run_guard (GHalfWindow true true) (Lst [Int 10; Int 0]) = None.
+Proof. vm_compute. repeat split. Qed.
 
 Example C15_routing_hypotheses_nonvacuous :
   regular (Sc (Int 0)) = true /\ must_reject DPos false (Sc (Int 0)) = true.
